@@ -641,3 +641,37 @@ def check_C16(ctx):
     ctx.validate("Trace_DedupSets", run, shards=16, corrupt=corrupt)
     if not ctx.selftest:
         builder_family(ctx, n_random=6000 if ctx.thorough else 600, mc_sample=None if ctx.thorough else 300, n_plutus=6000 if ctx.thorough else 700)
+
+
+# ------------------------------------------------------------------------------- C04
+
+@prop("C04", "scenario = a transaction in one encoding + an add-signature history: 8 witness-set variants (each key absent / present / "
+             "present-but-empty) x all histories of <= 2 (quick) / 3 operations over {vkey 1, vkey 2, bootstrap 1}, and every single "
+             "non-canonical encoding choice (Encodings!Deviations: wider heads, indefinite containers, chunked strings, swapped / duplicated "
+             "map entries, dropped set tags) of two transactions with auxiliary data x 4 histories; plus random Plutus datums in non-canonical "
+             "encodings; non-trivial = an accepted encoding whose serialization TLC compared span by span; distinct = (deviation, length) / "
+             "(operation kind, touched keys, added counts) / datum shapes")
+def check_C04(ctx):
+    ctx.assumptions += ["Blake2b-256 is uninterpreted in TLA+; hashlib evaluates it on the spec-extracted original body span / datum bytes",
+                        "added witnesses are recomputed by the harness with make_vkey_witness / make_icarus_bootstrap_witness over the reported hash (Ed25519 is deterministic)",
+                        "elements of a TOUCHED key-witness field are compared as data (the statement protects untouched fields byte for byte)",
+                        "read-only block views (FixedTransactionBody, FixedBlock) of DESIGN section 3 C04 are not exercised yet"]
+    if ctx.replay:
+        run = ctx.run_replay()
+        return
+    cfg = "MC_FixedTx_thorough.cfg" if ctx.thorough else "MC_FixedTx.cfg"
+    r = ctx.mc("MC_FixedTx", cfg=cfg, workers=8)
+    p = ctx.write_scn(r.by("SCN"))
+    run = ctx.drive("fixedtx", scn=p, n=30000 if ctx.thorough else 3000)
+
+    def corrupt(recs, rnd):
+        n = 0
+        for r in recs:
+            if r.get("ev") == "Load" and isinstance(r.get("r"), dict) and r["r"].get("ok"):
+                b = r["r"]["bytes"]
+                b[10] ^= 1          # one byte inside the body span of the serialization
+                n += 1
+        return n > 0
+    em = ctx.validate("Trace_FixedTx", run, shards=16, corrupt=corrupt)
+    if em is not None and not ctx.selftest:
+        ctx.extra["digests_evaluated_with_hashlib"] = _take_hashchk(ctx, em)
